@@ -597,6 +597,9 @@ def run(chk):
                 "2..3 files, every TLC list-file case (<= MaxList lines, here = cwd | sub directory) and every TLC --name "
                 "case; distinct = distinct (layouts, locations, form) / list files / (name options, layout)")
     chk.extra["distinct_nontrivial"] = len(distinct)
+    # name selection inside complete runs (Run.tla / Props_Run.tla, clause C10.name_in_run) comes from the shared run stage
+    from props import runprops
+    runprops.add_shared_verdicts(chk, ["C10."])
     chk.extra["layouts"] = len(layouts)
     chk.extra["list_cases"] = len(lists)
     chk.extra["name_cases"] = len(names)
@@ -614,6 +617,9 @@ def run(chk):
 
 
 def replay(chk, payload):
+    if "prog" in payload.get("replay", {}):          # a case of the shared run stage (C10.name_in_run)
+        from props import runprops
+        return runprops.replay_case(chk, payload, ["C10."])
     job = payload["replay"]["job"]
     scratch = tempfile.mkdtemp(prefix="verif-c10-")
     try:
